@@ -38,6 +38,13 @@ class PrimWorld:
     def on_setattr(self, it, o, attr, v, node):
         it.event("extra-attr-store", node, f"attribute {attr} stored")
 
+    def on_module_store(self, it, modname, attr, v, node):
+        it.event("selection-store", node, f"module attribute {modname}.{attr} stored")
+        return None
+
+    def module_attr(self, it, modname, attr, node):
+        return NotImplemented
+
     def on_new_container(self, it, d, node):
         self.owned.add(id(d))
         self._keep.append(d)
@@ -69,7 +76,9 @@ class PrimWorld:
     def construct(self, *a):
         return NotImplemented
 
-    def isinstance_ext(self, *a):
+    def isinstance_ext(self, it, o, k, node):
+        if k.name in ("numpy.ndarray",):
+            return isinstance(o, TV) and o.rank == 1
         return False
 
     def call_ext(self, *a):
